@@ -71,9 +71,9 @@ def mk_case(chan, N, M, k, origin, progs, sched, meta=None, probe=False):
         coq = "%s %d %d %d %d [%s] [%s]%%nat [%s]%%nat" % (WRUNNERS[chan], N, M, k, origin,
                 "; ".join("[" + "; ".join(coq_wop((("send", a) if n == "senda" else (n, a))) for n, a in p) + "]" for p in progs),
                 "; ".join(waker_plan(p) for p in progs), "; ".join(map(str, sched)))
-    elif chan in ZRUNNERS and not probe and not switching and origin == 0 and all(n in ZOPS for p in progs for n, a in p):
-        # the zero-copy Uni channels: machine of Chan/ChanZ.v over the pool + id-ring component of Alloc/ZcUni.v
-        coq = "%s %d %d %d [%s] [%s]%%nat" % (ZRUNNERS[chan], N, M, k,
+    elif chan in ZRUNNERS and not probe and not switching and all(n in ZOPS for p in progs for n, a in p):
+        # the zero-copy Uni channels: machine of Chan/ChanZ.v over the pool + id-ring component of Alloc/ZcUni.v (counters of both rings at `origin`)
+        coq = "%s_at %d %d %d %d [%s] [%s]%%nat" % (ZRUNNERS[chan], origin, N, M, k,
                 "; ".join("[" + "; ".join(coq_op(o) for o in p) + "]" for p in progs), "; ".join(map(str, sched)))
     elif chan in ZXRUNNERS and not probe and not switching and origin == 0 and all(n in ZOPS + ("res", "sres", "cres") for p in progs for n, a in p):
         # ... and their reserve API: the layer of Chan/ChanZX.v (reserve = allocation, send-reserved = publication of the id, cancel = deallocation)
